@@ -75,6 +75,7 @@ type Stats struct {
 	FFFDAtEOF        int  // literal containing U+FFFD attempted at end of input
 	StaleCtxEvents   int
 	DistinctEvals    int // distinct (expression node, offset) pairs evaluated
+	CodeReevalDiff   int // a code block evaluated again at the same offset with different label values
 	LabelReeval      int // a labelled expression evaluated again at an offset where it was evaluated before
 }
 
@@ -145,6 +146,7 @@ type interp struct {
 	budget    int
 	seen      map[[2]int]bool
 	labelSeen map[[2]int]bool
+	codeSeen  map[[2]int]string
 	adv       map[int]bool
 	depth     int
 
@@ -942,6 +944,13 @@ func (it *interp) passedState() map[string]any {
 func (it *interp) record(kind string, e *gspec.Expr, text []byte, p Pos, env map[string]any) vrt.Event {
 	ev := vrt.Event{Kind: kind, ID: e.ID, Text: string(text), Line: p.Line, Col: p.Col, Off: p.Off,
 		Labels: vrt.LabelsText(e.Scope, it.scopeVals(e, env)), Global: vrt.GlobalSnapshot(it.global)}
+	if it.codeSeen == nil {
+		it.codeSeen = map[[2]int]string{}
+	}
+	if prev, ok := it.codeSeen[[2]int{e.NID, p.Off}]; ok && prev != ev.Labels && !it.inLRRule(e.RuleOf) {
+		it.st.CodeReevalDiff++
+	}
+	it.codeSeen[[2]int{e.NID, p.Off}] = ev.Labels
 	if st := it.passedState(); st != nil {
 		ev.State = vrt.StateSnapshot(st)
 	}
